@@ -133,7 +133,8 @@ impl Ctx {
         self.nviol.fetch_add(1, Ordering::SeqCst);
         let key = format!("{prop}|{kind}|{witness}");
         let mut rep = self.reported.lock().unwrap();
-        if rep.len() >= 8 || !rep.insert(key.clone()) {
+        let cap = std::env::var("VERIF_MAX_REPORT").ok().and_then(|v| v.parse().ok()).unwrap_or(8usize);
+        if rep.len() >= cap || !rep.insert(key.clone()) {
             return false;
         }
         drop(rep);
